@@ -11,6 +11,7 @@ func init() {
 	vfHarnesses["H_creader"] = H_creader
 	vfHarnesses["H_life_w"] = H_life_w
 	vfHarnesses["H_life_wc"] = H_life_wc
+	vfHarnesses["H_life_rc"] = H_life_rc
 	vfHarnesses["H_life_r"] = H_life_r
 	vfHarnesses["H_life_w2"] = H_life_w2
 	vfHarnesses["H_dep"] = H_dep
@@ -97,6 +98,13 @@ func H_creader() {
 // Writer the sink is only looked at when no library goroutine can be writing to it (after Close,
 // after Reset), and the sequential-only Flush clause is not asserted.
 var hLifeNum int
+
+// H_life_rc is H_life_r on a concurrent Reader.
+func H_life_rc() {
+	hLifeNum = vfParam("num")
+	H_life_r()
+	hLifeNum = 0
+}
 
 // H_life_wc is H_life_w on a concurrent Writer (C17 "on sequential and concurrent objects").
 func H_life_wc() {
@@ -279,6 +287,9 @@ func H_life_r() {
 	}
 	src := mk()
 	zr := NewReader(src)
+	if hLifeNum > 1 {
+		vfAssume(zr.Apply(ConcurrencyOption(hLifeNum)) == nil)
+	}
 	delivered := 0
 	ended := false
 	started := false
